@@ -27,3 +27,24 @@ Print Assumptions C11_none_rules.
 Theorem C11_empty_field_is_none : forall t, cast_val t None = COk VNone /\ cast_val t (Some []) = COk VNone.
 Proof. exact empty_field_casts_to_none. Qed.
 Print Assumptions C11_empty_field_is_none.
+
+(* parsing the token stream of any condition tree (and/or with at least two
+   children, any nesting of not/and/or, all operators) returns that tree *)
+Theorem C11_parse_print : forall c rest fuel, cwf c -> need c + 2 <= fuel ->
+  not_and rest -> not_or rest ->
+  parse_disj fuel (print 0 c ++ rest) = Some (c, rest).
+Proof. exact parse_print. Qed.
+Print Assumptions C11_parse_print.
+
+(* with the fuel the where-clause parser itself passes *)
+Theorem C11_parse_where_print : forall c, cwf c ->
+  parse_where 2 (KWhere :: print 0 c ++ [KDot]) [] = Some (Some c, [KDot]).
+Proof. exact parse_where_print. Qed.
+Print Assumptions C11_parse_where_print.
+
+(* several where clauses mean conjunction *)
+Theorem C11_where_conjunction : forall c1 c2, cwf c1 -> cwf c2 ->
+  parse_where 3 (KWhere :: print 0 c1 ++ KWhere :: print 0 c2 ++ [KDot]) [] =
+  Some (Some (CAnd [c1; c2]), [KDot]).
+Proof. exact where_conjunction. Qed.
+Print Assumptions C11_where_conjunction.
